@@ -785,13 +785,15 @@ impl Runner for LimiterRunner {
                     return out.push("bad-op".into());
                 };
                 let ip = self.ip(i);
-                let node = if *kind == "m" { self.node(ni) } else { node_of(ni) };
+                let node = if *kind == "m" || *kind == "h" { self.node(ni) } else { node_of(ni) };
                 let Some(r) = self.recv.as_mut() else { return out.push("bad-op".into()) };
                 let addr = SocketAddr::new(ip, port);
                 let data = match *kind {
                     "g" => vec![0x5a; 80],
                     "w" => r.recv.whoareyou_datagram(),
                     "m" => r.recv.message_datagram(node),
+                    // a handshake packet names its sender too: the node stage applies to it alike
+                    "h" => r.recv.handshake_datagram(node),
                     _ => return out.push("bad-op".into()),
                 };
                 let exempt = r.recv.expected_responses.read().contains_key(&addr);
@@ -800,6 +802,8 @@ impl Runner for LimiterRunner {
                 let ip_ban = snap.ban_ips.iter().any(|(k, _)| *k == ip);
                 let n_permit = snap.permit_nodes.contains(&node);
                 let n_ban = snap.ban_nodes.iter().any(|(k, _)| *k == node);
+                // (the harness treats both kinds that carry a source id as one)
+                let kind: &&str = if *kind == "h" { &"m" } else { kind };
                 let RecvSide { rt, recv } = r;
                 let Some((o, reported)) = rt.block_on(recv.deliver_reporting_source(addr, data, barrier_addr())) else {
                     out.push("!MON C18 recv-handler-stopped".into());
@@ -1164,7 +1168,7 @@ fn gen_recv_case(rng: &mut Rng, thorough: bool, stats: &mut Stats) -> Vec<String
         ops.push(format!("lfbi {} {} {}", now, ip, LONG_BAN_NS));
         ops.push(format!("lrx {} 1000", ip));
         for _ in 0..rng.range(2, 4) {
-            let kind = *rng.pick(&["g", "w", "m"]);
+            let kind = *rng.pick(&["g", "w", "m", "h"]);
             ops.push(format!("lrin {} {} {} {} {}", now, ip, 1000 + rng.below(2), kind, rng.below(nnodes)));
         }
         ops.push(format!("lrin {} {} 1001 m {}", now, ip, rng.below(nnodes)));
@@ -1177,7 +1181,7 @@ fn gen_recv_case(rng: &mut Rng, thorough: bool, stats: &mut Stats) -> Vec<String
             0..=2 => ops.push(format!("lrx {} {}", ip, port)),
             3 => ops.push(format!("lry {} {}", ip, port)),
             4..=16 => {
-                let kind = *rng.pick(&["g", "w", "m", "m", "m"]);
+                let kind = *rng.pick(&["g", "w", "m", "m", "h"]);
                 let node = rng.below(nnodes);
                 ops.push(format!("lrin {} {} {} {} {}", now, ip, port, kind, node));
             }
